@@ -25,3 +25,28 @@ func VerifParseFrame(m string, typ MessageType, begin bool) (string, error) {
 	}
 	return parseFrame(m, typ, footerMarker)
 }
+
+// VerifPunctuatedReader exposes punctuatedReader.
+type VerifPunctuatedReader struct{ p *punctuatedReader }
+
+// VerifNewPunctuatedReader exposes newPunctuatedReader.
+func VerifNewPunctuatedReader(r io.Reader, punct byte) VerifPunctuatedReader {
+	return VerifPunctuatedReader{newPunctuatedReader(r, punct)}
+}
+
+// Read exposes (*punctuatedReader).Read.
+func (v VerifPunctuatedReader) Read(out []byte) (int, error) { return v.p.Read(out) }
+
+// ReadUntilPunctuation exposes (*punctuatedReader).ReadUntilPunctuation.
+func (v VerifPunctuatedReader) ReadUntilPunctuation(lim int) ([]byte, error) {
+	return v.p.ReadUntilPunctuation(lim)
+}
+
+type verifChunker func() ([]byte, error)
+
+func (f verifChunker) getNextChunk() ([]byte, error) { return f() }
+
+// VerifNewChunkReader exposes newChunkReader over a caller-supplied chunk source.
+func VerifNewChunkReader(next func() ([]byte, error)) io.Reader {
+	return newChunkReader(verifChunker(next))
+}
